@@ -112,6 +112,63 @@ theorem K06c_witness : (parseFieldAttrs [cl!"skip_deserializing"]).skip = true :
 /-- K06d: an escaped quote ends the rename value early -/
 theorem K06d_witness : (parseFieldAttrs [cl!"rename = \"a\\\"b\""]).rename = some cl!"a\\" := by
   decide +kernel
+/-! ## the rename scanner on the canonical attribute text, for every value -/
+
+theorem findCh_skip (c : Char) : ∀ (l s : Str), c ∉ l → SA.findCh c (l ++ s) = (SA.findCh c s).map (· + l.length)
+  | [], s, _ => by simp
+  | x :: xs, s, h => by
+    have hx : x ≠ c := fun e => h (by simp [e])
+    have hxs : c ∉ xs := fun e => h (List.mem_cons_of_mem _ e)
+    simp only [List.cons_append, SA.findCh, hx, if_false, findCh_skip c xs s hxs, Option.map_map, List.length_cons]
+    congr 1
+
+/-- the text `proc_macro2` prints for `#[serde(rename = "X")]` -/
+def renameText (x : Str) : Str := 'r' :: 'e' :: 'n' :: 'a' :: 'm' :: 'e' :: ' ' :: '=' :: ' ' :: '"' :: (x ++ ['"'])
+
+/-- **for every rename value free of `"`** (K06d is the escaped quote) the scanner reads exactly the declared value -/
+theorem C06_scan_rename_canonical (x : Str) (hq : '"' ∉ x) : parseRename (renameText x) = some x := by
+  unfold parseRename parseRenameFrom renameText
+  have hf : findSub kwRename ('r' :: 'e' :: 'n' :: 'a' :: 'm' :: 'e' :: ' ' :: '=' :: ' ' :: '"' :: (x ++ ['"'])) = some 0 := by
+    simp [findSub, startsWith, kwRename]
+  simp only [List.length_cons, hf]
+  simp only [Nat.zero_add, List.drop_succ_cons, List.drop_zero]
+  have hws : isWs ' ' = true := by decide
+  have hne : isWs '=' = false := by decide
+  have ht : trimStartWs (' ' :: '=' :: ' ' :: '"' :: (x ++ ['"'])) = '=' :: ' ' :: '"' :: (x ++ ['"']) := by
+    simp [trimStartWs, hws, hne]
+  rw [ht]
+  have hs : startsWith ('=' :: ' ' :: '"' :: (x ++ ['"'])) kwAll = false := by simp [startsWith, kwAll]
+  simp only [hs, Bool.false_eq_true, if_false]
+  have he : SA.findCh '=' (' ' :: '=' :: ' ' :: '"' :: (x ++ ['"'])) = some 1 := by simp [SA.findCh]
+  rw [he]
+  simp only [List.drop_succ_cons, List.drop_zero]
+  unfold firstQuoted
+  have h1 : SA.findCh '"' (' ' :: '"' :: (x ++ ['"'])) = some 1 := by simp [SA.findCh]
+  rw [h1]
+  simp only [List.drop_succ_cons, List.drop_zero]
+  have h2 : SA.findCh '"' (x ++ ['"']) = some x.length := by
+    rw [findCh_skip '"' x _ hq]; simp [SA.findCh]
+  rw [h2]
+  simp
+
+/-- hence the key of a field declared `#[serde(rename = "X")]` is `X`, whatever the identifier, the container rule and
+    the configured default case -/
+theorem C06_rename_text_to_key (f x : Str) (hq : '"' ∉ x) (rule : Option Rule) (dflt : Str) :
+    computeName f (parseFieldAttrs [renameText x]).rename rule dflt = x := by
+  simp only [parseFieldAttrs, List.foldl, C06_scan_rename_canonical x hq]
+  rfl
+
+/-- the text printed for `#[serde(rename_all = "<rule>")]` -/
+def renameAllText (r : Rule) : Str := cl!"rename_all = \"" ++ ruleName r ++ ['"']
+
+/-- all eight rules of serde are read back from the canonical container attribute (the whole table) … -/
+theorem C06_scan_rename_all_canonical (r : Rule) : parseStructAttrs [renameAllText r] = some r := by
+  cases r <;> decide +kernel
+
+/-- … and a container `rename_all` is never mistaken for a field rename -/
+theorem C06_rename_all_is_not_rename (r : Rule) : parseRename (renameAllText r) = none := by
+  cases r <;> decide +kernel
+
 /-- the scanner is right on the plain cases (non-vacuity of the correspondence) -/
 example : parseFieldAttrs [cl!"rename = \"userName\" , skip_serializing_if = \"Option::is_none\""]
     = { rename := some cl!"userName", skip := false } := by decide +kernel
